@@ -739,7 +739,7 @@ def job_scale(j):
     col = Collector()
     pid = j.get("pid", "C09")
     for k in range(j.get("n_cases", 3)):
-        kind = rng.choice(["chain", "fan", "grid", "binary", "roots", "chain_beside_sequential", "fan_below_sequential", "fan_in"])
+        kind = rng.choice(j.get("kinds") or ["chain", "fan", "grid", "binary", "roots", "chain_beside_sequential", "fan_below_sequential", "fan_in"])
         n = rng.randint(j.get("nmin", 200), j.get("nmax", 600))
         if k == 0:
             kind, n = "chain", rng.randint(520, 700)  # deeper than half of Python's default recursion limit
